@@ -230,3 +230,74 @@ Qed.
 (* the chunk size of the seeded change leaves a partial group *)
 Example chunk_size_is_not_a_multiple_of_three : (32768 mod 3 = 2) /\ (32768 mod 16 = 0) /\ (98304 mod 3 = 0).
 Proof. vm_compute. repeat split; reflexivity. Qed.
+
+(* seeded/C18-9: VerifySignature base64-DECODES the presented signature (StdEncoding, not Strict)
+   and compares bytes.  The lenient decoder ignores the unused low bits of the last significant
+   character of a padded quantum: for a MAC whose length is 2 modulo 3 (32 bytes: 44 characters, one
+   '=') the third character of the last quantum carries 2 discarded bits, so THREE other texts
+   decode to the same bytes. *)
+Definition b64_dec_quantum_lenient (q : list Z) : option (list Z) :=
+  match q with
+  | [a; b; c; d] =>
+    if d =? b64pad then
+      if c =? b64pad then Some [a * 4 + b / 16]
+      else Some [a * 4 + b / 16; (b mod 16) * 16 + c / 4]            (* c mod 4 is dropped *)
+    else Some [a * 4 + b / 16; (b mod 16) * 16 + c / 4; (c mod 4) * 64 + d]
+  | _ => None
+  end.
+
+(* compare decoded bytes (pinned) vs compare texts (the code) on the last quantum of a signature *)
+Definition pinned_sig_equal (presented expected : list Z) : bool :=
+  match b64_dec_quantum_lenient presented, b64_dec_quantum_lenient expected with
+  | Some x, Some y => if list_eq_dec Z.eq_dec x y then true else false
+  | _, _ => false
+  end.
+Definition text_equal (presented expected : list Z) : bool :=
+  if list_eq_dec Z.eq_dec presented expected then true else false.
+
+(* every 2-byte tail [x; y]: the three neighbours of its third character are accepted by the
+   pinned comparison and are different texts *)
+Theorem pinned_decode_then_compare_refuted : forall x y k,
+  0 <= x < 256 -> 0 <= y < 256 -> 1 <= k <= 3 ->
+  let good := b64 [x; y] in
+  let forged := [x / 4; (x mod 4) * 16 + y / 16; (y mod 16) * 4 + k; b64pad] in
+  pinned_sig_equal forged good = true /\ text_equal forged good = false /\
+  b64_dec_quantum_lenient good = Some [x; y].
+Proof.
+  intros x y k Hx Hy Hk good forged. subst good forged. cbn [b64].
+  assert (P : b64pad =? b64pad = true) by reflexivity.
+  assert (C1 : ((y mod 16) * 4 + k =? b64pad) = false).
+  { apply Z.eqb_neq. unfold b64pad. pose proof (Z.mod_pos_bound y 16 ltac:(lia)). lia. }
+  assert (C0 : ((y mod 16) * 4 =? b64pad) = false).
+  { apply Z.eqb_neq. unfold b64pad. pose proof (Z.mod_pos_bound y 16 ltac:(lia)). lia. }
+  assert (Q1 : ((y mod 16) * 4 + k) / 4 = y mod 16).
+  { pose proof (Z.mod_pos_bound y 16 ltac:(lia)).
+    replace ((y mod 16) * 4 + k) with (k + (y mod 16) * 4) by lia. rewrite Z.div_add by lia.
+    rewrite Z.div_small by lia. lia. }
+  assert (Q0 : ((y mod 16) * 4) / 4 = y mod 16) by (apply Z.div_mul; lia).
+  assert (B1 : (x / 4) * 4 + ((x mod 4) * 16 + y / 16) / 16 = x).
+  { pose proof (Z.mod_pos_bound x 4 ltac:(lia)).
+    assert (y / 16 < 16) by (apply Z.div_lt_upper_bound; lia).
+    assert (0 <= y / 16) by (apply Z.div_pos; lia).
+    replace ((x mod 4) * 16 + y / 16) with (y / 16 + (x mod 4) * 16) by lia.
+    rewrite Z.div_add by lia. rewrite (Z.div_small (y / 16)) by lia.
+    pose proof (Z.div_mod x 4 ltac:(lia)). lia. }
+  assert (B2 : (((x mod 4) * 16 + y / 16) mod 16) * 16 + y mod 16 = y).
+  { assert (y / 16 < 16) by (apply Z.div_lt_upper_bound; lia).
+    assert (0 <= y / 16) by (apply Z.div_pos; lia).
+    replace ((x mod 4) * 16 + y / 16) with (y / 16 + (x mod 4) * 16) by lia.
+    rewrite Z.mod_add by lia. rewrite (Z.mod_small (y / 16)) by lia.
+    pose proof (Z.div_mod y 16 ltac:(lia)). lia. }
+  split; [|split].
+  - unfold pinned_sig_equal, b64_dec_quantum_lenient. rewrite P, C1, C0, Q1, Q0.
+    destruct (list_eq_dec Z.eq_dec _ _) as [_|N]; [reflexivity|exfalso; apply N; reflexivity].
+  - unfold text_equal. destruct (list_eq_dec Z.eq_dec _ _) as [E|_]; [|reflexivity].
+    exfalso. inversion E. lia.
+  - unfold b64_dec_quantum_lenient. rewrite P, C0, Q0, B1, B2. reflexivity.
+Qed.
+
+(* the coordinator's witness, in sextets: a tail "...fiQ=" has the accepted neighbours "fiR=", "fiS=", "fiT=" *)
+Example pinned_three_neighbours :
+  map (fun c => pinned_sig_equal [31; 34; c; b64pad] [31; 34; 16; b64pad]) [16; 17; 18; 19; 20] = [true; true; true; true; false] /\
+  map (fun c => text_equal [31; 34; c; b64pad] [31; 34; 16; b64pad]) [16; 17; 18; 19; 20] = [true; false; false; false; false].
+Proof. vm_compute. split; reflexivity. Qed.
